@@ -697,6 +697,78 @@ func acceptOverflowRun(r *vh.Runner, c *vh.Case, i int) {
 	}
 }
 
+// socketClosedByOwnerRun: the owner of the server's socket closes it before
+// (or while) Server.Close runs, so that the close of the socket inside
+// Server.Close reports an error. Every Close caller, Serve, a blocked Accept
+// and a blocked handle reader still return.
+func socketClosedByOwnerRun(r *vh.Runner, c *vh.Case, i int) {
+	rng := vh.NewRand(r.Seed, "c17-ownerclose", i)
+	cv := &transport.VerifyConfig{}
+	w := fix.NewWorld(false, cv, nil)
+	cv.Store = w.PKI.Store()
+	id := w.PKI.Issue(certs.RawStringName("client"))
+	cl, _ := w.NewClient(id, rng.Chance(0.3), 2*time.Second)
+	defer cl.Close()
+	var h *transport.Handle
+	if cl.Handshake() == nil {
+		h, _ = w.Server.AcceptTimeout(2 * time.Second)
+	}
+	tr := &ttracker{open: map[int]*tcall{}, count: map[string]int{}}
+	var wg sync.WaitGroup
+	spawn := func(actor, op string, f func()) {
+		wg.Add(1)
+		go func() {
+			defer wg.Done()
+			id := tr.begin(actor, op)
+			f()
+			tr.end(id)
+		}()
+	}
+	spawn("acceptor", "Server.AcceptTimeout", func() { w.Server.AcceptTimeout(time.Hour) })
+	if h != nil {
+		spawn("reader", "Handle.ReadMsg", func() { h.ReadMsg(make([]byte, 2000)) })
+	}
+	bub.Settle(10 * time.Millisecond)
+	ownerFirst := rng.Bool()
+	if ownerFirst {
+		w.SrvEP.Close()
+	}
+	var results [3]string
+	for k := range results {
+		spawn(fmt.Sprintf("closer%d", k), "Server.Close", func() { results[k] = fmt.Sprint(w.Server.Close()) })
+	}
+	if !ownerFirst {
+		w.SrvEP.Close()
+	}
+	ok := bub.Within(bub.Go(wg.Wait), 60*time.Second)
+	r.Count("evaluations", 1)
+	r.Count("server_closes_after_the_socket_was_closed_by_its_owner", 1)
+	r.Nontrivial(fmt.Sprintf("ownerclose|%d", i))
+	if !ok {
+		out := tr.outstanding()
+		ops := map[string]bool{}
+		for _, o := range out {
+			ops[strings.SplitN(o, " by ", 2)[0]] = true
+		}
+		var names []string
+		for o := range ops {
+			names = append(names, o)
+		}
+		sortS(names)
+		c.Violate("C17:transport-call-never-returns:"+strings.Join(names, "+")+":socket-closed-by-its-owner", map[string]any{"outstanding": out, "owner_closed_first": ownerFirst, "close_results": results})
+		if h != nil {
+			h.Close()
+		}
+		return
+	}
+	for _, x := range results {
+		if x != results[0] {
+			c.Violate("C17:close-results-differ-between-callers:Server", map[string]any{"results": results, "owner_closed_first": ownerFirst})
+			return
+		}
+	}
+}
+
 // socketWriteErrorRun (real time: the failure of interest is a lock that is
 // kept, on which later callers queue): the socket of one side refuses a write
 // (once, or from some point on); the failed call returns, and so does every
